@@ -40,6 +40,12 @@ pub open spec fn lex_lt(a: Seq<u8>, b: Seq<u8>) -> bool decreases a.len() {
 /// rule R4c: `a < b` on byte slices (TRUSTED: std's slice ordering is lexicographic)
 #[verifier::external_body] pub fn vx_lt_bytes(a: &[u8], b: &[u8]) -> (r: bool) ensures r == lex_lt(a@, b@) { a < b }
 
+/// rule R25: stands for dbg!/println!/eprintln!/print!/eprint! in verified code. Interpreters must not write to the process's
+/// standard streams, so the call is specified as unreachable.
+#[verifier::external_body] pub fn vx_std_stream_output()
+    requires false,                                                            // #C14 no output on stdout / stderr
+{ }
+
 /// rule R24: `==` between a str and a str literal (ASSUMED: str equality is equality of the character sequences,
 /// which is also what vstd states for `str`; the helper avoids vstd's generic PartialEq axioms, which are costly in long chains)
 #[verifier::external_body] pub fn vx_eq_str(a: &str, b: &str) -> (r: bool) ensures r == (a@ == b@) { a == b }
